@@ -484,7 +484,7 @@ class run_script_c:
     never modified (frame).  C07: limits from 1 upward."""
     params = {'script': 'bytes', 'cache_vals': 'dict', 'contracts': 'dict', 'additional_flags': 'dict',
               'plugins': 'dict', 'stack_max_items': 'int', 'stack_max_item_size': 'int', 'callstack_limit': 'int'}
-    globals = {'_contracts': 'dict', '_plugins': 'dict'}
+    globals = {'_contracts': 'dict', '_plugins': 'dict[list]'}
     modifies = ()
     raises = (BaseException,)
     returns = ('tuple', 'Tape', 'Stack', 'Cache')
@@ -550,7 +550,7 @@ class run_auth_scripts_c:
     Lists of 1..4 scripts (the property's own bound)."""
     params = {'scripts': 'list[bytes]', 'cache_vals': 'dict', 'contracts': 'dict', 'plugins': 'dict',
               'stack_max_items': 'int', 'stack_max_item_size': 'int', 'callstack_limit': 'int'}
-    globals = {'_contracts': 'dict', '_plugins': 'dict'}
+    globals = {'_contracts': 'dict', '_plugins': 'dict[list]'}
     modifies = ()
     # quick: lists of 1..3 scripts; thorough: 1..4 (the property's bound)
     cases = [(f'{n}-scripts', scripts_case(n))
